@@ -201,7 +201,7 @@ def run(ctx, vlib):
     failing += mp["failing"]
     diffs += mp["diffs"]
     classes.update(mp["classes"])
-    nontriv += mp["evaluations"] // 2
+    nontriv += mp["distinct_nontrivial"]       # measured in mem_vs_stream: distinct cases whose document exceeds the chunk
     # the MsgPack stream reader's own model (coq/MpStreamModel.v, Properties_C10mp.v): extracted model run on the in-memory
     # reader and on the chunked reader model (K = 8, 256) vs the real stream reader (chunk 256 and hook build 8) vs the real
     # string reader, on every format family behind pads of every length, truncations, random documents and sequences
@@ -229,7 +229,7 @@ def run(ctx, vlib):
     cs = csv_mem_vs_stream(ctx, vlib)
     failing += cs["failing"]
     classes.update(cs["classes"])
-    nontriv += cs["evaluations"] // 2
+    nontriv += cs["distinct_nontrivial"]       # measured in csv_mem_vs_stream: distinct stream cases whose document exceeds the chunk
     return dict(evaluations=len(cases) + len(jl) + mp["evaluations"] + cs["evaluations"] + ms.get("evaluations", 0), distinct_nontrivial=nontriv, samples=samples, classes=classes,
                 failing=failing, diffs=diffs, known_lines=known,
                 rule="random sequences (<= 40) of the nine CBinaryStreamReader operations over data of length 0..3K (lengths and positions at K-1,K,K+1,2K-1,..,3K), boundary scripts for every squeeze size / window edge, the callers' ReadByChunks loop, x stream kinds {istringstream, short-read seekable streambuf 1..k bytes per underflow, non-seekable streambuf} x K in %s; every implementation trace on a seekable stream is additionally checked by the extracted reference reader; `is` ops validate the modelled istream; document level: MsgPack read sequences (every first byte x tails, random documents, truncations, corruptions, documents shifted across the chunk boundary by a leading string of every length around 0/256/512) through the string reader and the stream reader (chunk 256 and 8), which must agree with each other and with the MsgPack model; non-trivial = distinct case that refills the window or seeks" % ks,
@@ -279,6 +279,8 @@ def csv_mem_vs_stream(ctx, vlib):
             failing.append(dict(driver="csv", case=cases[i + 1], implementation=b[:300], model=a[:300], judge="FAIL",
                                 why="the same CSV bytes load differently from a stream than from memory"))
     evaluations = len(cases)
+    # measured for the evidence: distinct stream cases whose document is longer than the reader's chunk (the window is refilled)
+    nontrivial = set(c for c in cases if c.startswith("csvr stream") and len(c.split(" ")[-1]) // 2 > 256)
     # the same table saved in the other four encodings (with BOM, and without BOM: detection needs an ASCII first character,
     # which a header name is): the stream load must give what the memory load of the UTF-8 text gives - the composition of
     # the CSV stream reader (C09) with the chunked transcoding reader (C13), observed on the implementation
@@ -298,6 +300,7 @@ def csv_mem_vs_stream(ctx, vlib):
                 enc_expect.append(outs[i])
     eo = vlib.run_driver(impl, enc_cases)
     evaluations += len(enc_cases)
+    nontrivial |= set(c for c in enc_cases if len(c.split(" ")[-1]) // 2 > 256)
     for c, o, want in zip(enc_cases, eo, enc_expect):
         key = "csv stream in UTF-16/32 vs memory UTF-8 -> %s" % ("equal" if o == want else "DIFFERENT")
         classes[key] = classes.get(key, 0) + 1
@@ -337,13 +340,14 @@ def csv_mem_vs_stream(ctx, vlib):
             os_ = vlib.run_driver(implk, cs)
             ok_ = vlib.run_driver(model, cs)
             evaluations += 3 * len(docs)
+            nontrivial |= set(c for c, d in zip(cs, docs) if len(d) > K)
             for c, a, b, m in zip(cs, om_, os_, ok_):
                 key = "csv K=%d -> %s" % (K, "equal" if a == b == m else "DIFFERENT")
                 classes[key] = classes.get(key, 0) + 1
                 if not (a == b == m) and len(failing) < 20:
                     failing.append(dict(driver="csv", case=c, implementation=b[:300], model=m[:300], memory=a[:300], judge="FAIL" if a != b else "DIFF",
                                         why="chunk size %d: stream load / memory load / stream model disagree" % K))
-    return dict(evaluations=evaluations, failing=failing, classes=classes)
+    return dict(evaluations=evaluations, failing=failing, classes=classes, distinct_nontrivial=len(nontrivial))
 
 
 def csv_common_quote(f):
